@@ -17,12 +17,12 @@
          exactly the live arguments have variables, the assumptions are exactly the live selectors;
          hence live variables never collide; every allocation is above everything the SAT session
          has seen (clauses, assumed literals, reserve);
+     (2') split_in_extension covers every live argument whatever the ids (D9);
      (3) cache (D10): a certificate served from the cache of the preferred solver is a NO
          certificate that omits the queried argument.
    NOT YET PROVED: the clause-set invariant (current assumptions + clause set == encoding of the
    current framework, dead variables independent), hence statuses and certificates; the
-   assumptions-on-attacks tables; sizing of split_in_extension (D9; covered by the replay tie and
-   the oracle only).  See NOTES-dyn.md. *)
+   assumptions-on-attacks tables.  See NOTES-dyn.md. *)
 From Crusta Require Import Model.Dynamic Proofs.DynDefs Proofs.DynProofs.
 
 Section C08.
@@ -80,6 +80,21 @@ Theorem C08_argument_allocation_partial : forall sm vars id ps vars' v ps',
   (forall i, i < length vars -> nth_error vars' i = nth_error vars i).
 Proof. exact DynProofs.alloc_arg_vars_spec. Qed.
 
+(* the variables in the tables are positive (entry 0 of solver_vars is never handed out) *)
+Theorem C08_variables_positive_partial : forall k s os e,
+  reach k s os -> b_enc L (s_buf L s) = XStd e -> DynProofs.not_dummy k ->
+  (forall id v, tbl_var (e_a2v e) id = Some v -> 0 < v) /\
+  (forall id sv, tbl_var (e_a2s e) id = Some sv -> 0 < sv).
+Proof. exact (DynProofs.std_vars_positive L leqb). Qed.
+
+(* split_in_extension on the dynamic framework (the blocking clause and the assumptions of the
+   preferred search) covers every live argument, however sparse the ids are - what D9 violated *)
+Theorem C08_split_covers_live_partial : forall (af : fw L) e cur ins outs id v,
+  dyn_split L af e cur = Some (ins, outs) ->
+  has_argument_with_id L af id = true -> tbl_var (e_a2v e) id = Some v ->
+  (memb id cur = true /\ In (zlit v) ins) \/ (memb id cur = false /\ In (zlit v) outs).
+Proof. exact (DynProofs.dyn_split_covers L). Qed.
+
 (* (3) *)
 Theorem C08_preferred_cache_sound_partial : forall s os l b ext,
   reach KPr s os -> is_skep L leqb (s_buf L s) l = (Some b, Some ext) ->
@@ -102,4 +117,6 @@ Print Assumptions C08_tables_partial.
 Print Assumptions C08_tables_distinct_partial.
 Print Assumptions C08_allocation_fresh_partial.
 Print Assumptions C08_argument_allocation_partial.
+Print Assumptions C08_variables_positive_partial.
+Print Assumptions C08_split_covers_live_partial.
 Print Assumptions C08_preferred_cache_sound_partial.
